@@ -186,6 +186,44 @@ class Checker(object):
         if got != exp:
             bad('free-vars', sk, 'get_free_variables(%s) = %s, definition '
                 'gives %s' % (B.show(fb, 150), sorted(got), sorted(exp)))
+        # the other entry points report the formula's own nodes too
+        import pysmt.shortcuts as SC
+        own = None
+        for ep, fn in (('shortcuts.get_free_variables',
+                        lambda: SC.get_free_variables(f)),
+                       ('shortcuts.get_atoms', lambda: SC.get_atoms(f))
+                       if ft == B.BOOL else (None, None),
+                       ('env.fvo', lambda: env.fvo.get_free_variables(f))):
+            if ep is None:
+                continue
+            try:
+                res = fn()
+            except Exception as e:
+                bad('entry-point', ep + '/exc:' + common.exc_name(e),
+                    '%s(%s) raised %r' % (ep, B.show(fb, 150), e))
+                continue
+            rep.count('entry_points_compared')
+            ref_ = f.get_atoms() if ep.endswith('get_atoms') else fv
+            if set(map(id, res)) != set(map(id, ref_)):
+                if own is None:
+                    own = set()
+                    todo = [f]
+                    while todo:
+                        x = todo.pop()
+                        if id(x) in own:
+                            continue
+                        own.add(id(x))
+                        todo.extend(x.args())
+                        if x.is_quantifier():
+                            todo.extend(x.quantifier_vars())
+                        if x.is_function_application():
+                            todo.append(x.function_name())
+                foreign_ = [str(x) for x in res if id(x) not in own]
+                bad('entry-point', ep,
+                    '%s(%s) differs from the FNode method%s' % (
+                        ep, B.show(fb, 150),
+                        ': it reports nodes that are not nodes of the '
+                        'formula (%s)' % foreign_[:3] if foreign_ else ''))
         # ---- qf
         qf = env.qfo.is_qf(f)
         rep.count('qf_compared')
